@@ -31,6 +31,7 @@ var (
 	flagShow     = flag.Bool("show", false, "print every obligation with its status")
 	flagNoReplay = flag.Bool("noreplay", false, "do not attempt counterexample replay")
 	flagList     = flag.Bool("list", false, "list functions")
+	flagGenNames = flag.Bool("gen-names", false, "write contracts-pinned/names.json (the names the contracts are written against) from the -repo tree")
 )
 
 func loadProgram(repo string) (*ssa.Program, []*packages.Package, error) {
@@ -61,10 +62,18 @@ func newEngine(prog *ssa.Program, pkgs []*packages.Package) *Engine {
 		abstracted: map[string]int{}, havocCalls: map[string]int{}, inlined: map[string]int{}, extUsed: map[string]int{},
 		maxPaths: 200000, safetyOn: true, c10units: map[string]bool{}, lockLess: map[string]map[string]bool{},
 		modCache: map[*ssa.BasicBlock]*modSet{}, pdomCache: map[*ssa.Function]map[*ssa.BasicBlock]*ssa.BasicBlock{}, neverClosedSends: map[string]int{}, fnModCache: map[*ssa.Function]*modSet{}, ifaceImplCache: map[string]bool{}}
+	var modFns []*ssa.Function
 	for f := range ssautil.AllFunctions(prog) {
 		if f.Pkg != nil && strings.HasPrefix(f.Pkg.Pkg.Path(), modPath) || strings.Contains(f.String(), modPath) {
-			e.fns[shortName(f.String())] = f
+			modFns = append(modFns, f)
 		}
+	}
+	e.curNames = collectNames(modFns)
+	if !*flagGenNames {
+		e.names = computeRenames(loadBaselineNames(*flagVerif), e.curNames)
+	}
+	for _, f := range modFns {
+		e.fns[shortName(f.String())] = f
 	}
 	for _, p := range pkgs {
 		if strings.HasPrefix(p.PkgPath, modPath) && !strings.HasSuffix(p.PkgPath, "_test") {
@@ -197,7 +206,7 @@ func (e *Engine) verifyUnit(name string) (err error) {
 	st := e.newState()
 	var args []Val
 	for i, p := range fn.Params {
-		v := e.freshVal(st, p.Type(), "in_"+p.Name())
+		v := e.freshVal(st, p.Type(), "in_"+e.vname(fn, p.Name()))
 		if i == 0 && fn.Signature.Recv() != nil && isPointer(p.Type()) {
 			st.assume(mkNot(mkEq(v.term(), "nil")))
 		}
@@ -207,11 +216,13 @@ func (e *Engine) verifyUnit(name string) (err error) {
 	fvCells := map[string]*Cell{}
 	for _, fv := range fn.FreeVars {
 		elem := fv.Type().Underlying().(*types.Pointer).Elem()
-		c := e.newCell(elem, fv.Name(), true)
-		st.cells[c] = e.freshVal(st, elem, "cap_"+fv.Name())
+		c := e.newCell(elem, e.vname(fn, fv.Name()), true)
+		st.cells[c] = e.freshVal(st, elem, "cap_"+e.vname(fn, fv.Name()))
 		bind = append(bind, e.cellPtr(c, fv.Type()))
 		fvCells[fv.Name()] = c
+		fvCells[e.vname(fn, fv.Name())] = c
 	}
+	e.resolveCapturedClosures(st, fn, bind)
 	fr := e.newFrame(fn, nil, 0)
 	fr.params = args
 	fr.bindings = bind
@@ -239,6 +250,11 @@ func (e *Engine) verifyUnit(name string) (err error) {
 			env := &Env{e: e, st: st, old: st, fr: fr, pkg: fn.Pkg.Pkg, names: e.bindParams(fn, fn.Signature, args)}
 			t, err := e.EvalBool(env, cl.E)
 			if err != nil {
+				if id := unknownIdent(err); id != "" && e.wasCaptured(name, id) {
+					// the closure no longer captures that variable: an assumption about it is simply dropped (sound)
+					e.warnings = append(e.warnings, fmt.Sprintf("%s: requires %s dropped: %q is no longer captured by the closure", name, cl.Label, id))
+					continue
+				}
 				// the contract talks about something the code no longer has: reported as contract-target-missing
 				e.specErrs = append(e.specErrs, fmt.Sprintf("%s: requires %s: %v", name, cl.Label, err))
 				continue
@@ -518,6 +534,16 @@ func main() {
 	}
 	e := newEngine(prog, pkgs)
 	e.trace = *flagTrace
+	if *flagGenNames {
+		data, _ := json.MarshalIndent(e.curNames, "", " ")
+		p := filepath.Join(*flagVerif, "contracts-pinned", "names.json")
+		if err := os.WriteFile(p, append(data, '\n'), 0o644); err != nil {
+			fmt.Fprintln(os.Stderr, "govc:", err)
+			os.Exit(2)
+		}
+		fmt.Println("govc: wrote", p, len(e.curNames), "functions")
+		return
+	}
 	if *flagList {
 		var ns []string
 		for n := range e.fns {
@@ -538,6 +564,9 @@ func main() {
 		return
 	}
 	notes, err := e.loadSpecs(*flagRepo, *flagVerif)
+	if e.names != nil {
+		notes = append(notes, e.names.notes...)
+	}
 	if err != nil {
 		fmt.Fprintln(os.Stderr, "govc: contract error:", err)
 		os.Exit(2)
@@ -663,4 +692,122 @@ func sliceAssumptions(assume []string, goal string) []string {
 		}
 	}
 	return out
+}
+
+// resolveCapturedClosures: a captured variable of function type that the enclosing function assigns exactly once,
+// with a closure literal, and that no closure writes, denotes that closure (a local helper such as
+// `lookup := func(...) {...}`); its own captured variables are shared with the unit's where they coincide.
+func (e *Engine) resolveCapturedClosures(st *State, fn *ssa.Function, bind []Val) {
+	parent := fn.Parent()
+	if parent == nil || len(fn.FreeVars) == 0 {
+		return
+	}
+	var mk *ssa.MakeClosure
+	for _, b := range parent.Blocks {
+		for _, in := range b.Instrs {
+			if m, ok := in.(*ssa.MakeClosure); ok && m.Fn == fn {
+				mk = m
+			}
+		}
+	}
+	if mk == nil || len(mk.Bindings) != len(fn.FreeVars) {
+		return
+	}
+	cellOf := func(v ssa.Value) *Cell {
+		for i, b := range mk.Bindings {
+			if b == v && i < len(bind) {
+				if r := bind[i].ref(0); r != nil && r.Loc != nil && r.Loc.Kind == LCell {
+					return r.Loc.Cell
+				}
+			}
+		}
+		return nil
+	}
+	for i, fv := range fn.FreeVars {
+		elem := fv.Type().Underlying().(*types.Pointer).Elem()
+		if _, ok := elem.Underlying().(*types.Signature); !ok {
+			continue
+		}
+		a, ok := mk.Bindings[i].(*ssa.Alloc)
+		if !ok || a.Referrers() == nil {
+			continue
+		}
+		var stores []*ssa.Store
+		okUse := true
+		for _, r := range *a.Referrers() {
+			switch x := r.(type) {
+			case *ssa.Store:
+				if x.Addr == a {
+					stores = append(stores, x)
+				} else {
+					okUse = false
+				}
+			case *ssa.UnOp, *ssa.DebugRef:
+			case *ssa.MakeClosure:
+				cf := x.Fn.(*ssa.Function)
+				w := e.writtenFreeVars(cf)
+				for j, b := range x.Bindings {
+					if b == a && j < len(cf.FreeVars) && w[cf.FreeVars[j]] {
+						okUse = false
+					}
+				}
+			default:
+				okUse = false
+			}
+		}
+		if !okUse || len(stores) != 1 {
+			continue
+		}
+		hm, ok := stores[0].Val.(*ssa.MakeClosure)
+		if !ok {
+			continue
+		}
+		hf := hm.Fn.(*ssa.Function)
+		var hb []Val
+		for j, b := range hm.Bindings {
+			if c := cellOf(b); c != nil {
+				hb = append(hb, e.cellPtr(c, hf.FreeVars[j].Type()))
+				continue
+			}
+			el := hf.FreeVars[j].Type().Underlying().(*types.Pointer).Elem()
+			c := e.newCell(el, e.vname(hf, hf.FreeVars[j].Name()), true)
+			st.cells[c] = e.freshVal(st, el, "cap_"+c.name)
+			hb = append(hb, e.cellPtr(c, hf.FreeVars[j].Type()))
+		}
+		if r := bind[i].ref(0); r != nil && r.Loc != nil && r.Loc.Kind == LCell {
+			fvl := e.funcVal(hf, hb)
+			st.cells[r.Loc.Cell] = Val{T: elem, L: fvl.L, R: fvl.R}
+		}
+	}
+}
+
+func unknownIdent(err error) string {
+	const k = "unknown identifier \""
+	m := err.Error()
+	i := strings.Index(m, k)
+	if i < 0 {
+		return ""
+	}
+	m = m[i+len(k):]
+	if j := strings.Index(m, "\""); j >= 0 {
+		return m[:j]
+	}
+	return ""
+}
+
+// wasCaptured: was id a captured variable of the (pinned) closure name?
+func (e *Engine) wasCaptured(name, id string) bool {
+	if e.names == nil || e.names.base == nil {
+		return false
+	}
+	fi := e.names.base[name]
+	if fi == nil {
+		return false
+	}
+	for _, v := range fi.Free {
+		if v.N == id {
+			return true
+		}
+	}
+	return false
 }
